@@ -143,6 +143,24 @@ def chained3(L):
     return L['M'] == 3 and 1 <= len(ch) <= 2 and any(len(sl) >= 2 for (_, sl) in ch) and ch[0][1][0] == 0
 
 
+def foreign3(L):
+    """M=3 layouts with two used slots in which some slot holds a block that is NOT at home there (a collision key, or the
+    extension block of a chained value) and one slot is free: a new key whose home is that slot must relocate the foreign block
+    (first key slot 0: cyclic-rotation representatives)"""
+    ch = L['chains']
+    if not (L['M'] == 3 and L['used'] == 2 and ch and ch[0][1][0] == 0):
+        return False
+    return any(sl[0] != h for (h, sl) in ch) or any(len(sl) >= 2 for (_, sl) in ch)
+
+
+def foreign_home(c):
+    """keep the PUT queries whose operation key is at home in a slot occupied by a foreign block"""
+    d = c.defines
+    H = d['VF_OPHOME']
+    kinds = [int(x) for x in d['VF_KIND'].strip('{}').split(',')]
+    return kinds[H] in (2, 3)
+
+
 def cases(tier, mode='func'):
     q = tier == 'quick'
     if mode == 'func':
@@ -151,7 +169,8 @@ def cases(tier, mode='func'):
             # "multi-slot value replaced by a shorter / by another multi-slot value" (exact bytes, length, freed slots)
             one_chain = lambda L: chained3(L) and L['nkeys'] == 1 and L['used'] == 2
             return step_cases(tier) + step_cases(tier, ops=('REMOVE', 'REMOVE_IDX'), Ms=[3], filt=chained3) + \
-                [c for c in step_cases(tier, ops=('PUT',), Ms=[3], filt=one_chain, few=True) if '.k0.' in c.cid]
+                [c for c in step_cases(tier, ops=('PUT',), Ms=[3], filt=one_chain, few=True) if '.k0.' in c.cid] + \
+                [c for c in step_cases(tier, ops=('PUT',), Ms=[3], filt=foreign3, few=True) if '.knew.' in c.cid and foreign_home(c)]
         return step_cases(tier)
     if mode == 'c07':
         if q:
